@@ -269,6 +269,13 @@ fn run_check(id: &str, tier: &str) -> i32 {
                 let t_run = Instant::now();
                 let out = sc.run_one(seed_r, &env);
                 let run_ms = t_run.elapsed().as_millis() as u64;
+                let mut out = out;
+                // a run that used up its step budget while still making progress (see sim.rs) was
+                // cut short, not stuck: nothing is concluded from it
+                if out.findings.iter().any(|(_, f)| f.detail.contains(sim::PROGRESSING_MSG)) {
+                    out.findings.clear();
+                    out.stat("inconclusive.step_budget_while_progressing", 1);
+                }
                 let mut nondet = false;
                 let mut rechecked = 0;
                 if i % 100 == 7 {
